@@ -18,12 +18,12 @@ CHECKS = {
  "C09": dict(
    level="model_checking", design="DESIGN.md section 5 C09",
    text="Rewrites are contract actions of LwCircuit (transformation, heralds, input size preserved; no group after unpack; copies independent), checked by TLC with exact matrices; dumped and simulated programs with rewrites followed by further edits are replayed, and recorded rewrite-heavy histories are validated by LwCircuitTrace including the structure postconditions (no group, no non-adjacent beam splitter also inside groups, component count not grown).",
-   note="Contract-style: a different compression algorithm is not an alarm. unpack_groups of a circuit with ancillas is bound to the recorded placement of the former ancillas. " + TB,
-   technique="TLC on LwCircuit rewrite actions (RewriteProp, NoGroupAfterUnpack, CopyProp); replay; trace validation with recorded structure"),
+   note="Contract-style in LwCircuit: a different compression algorithm is not an alarm. In addition LwRewrites transcribes convert_non_adj_beamsplitters / combine_mode_swap_dicts / compress_mode_swaps and TLC checks them on every op list in scope (the defect F22 is kept as an expected-to-fail variant); a structural difference between transcription and implementation is DRIFT, a semantic one a violation. " + TB,
+   technique="TLC on LwCircuit rewrite actions (RewriteProp, NoGroupAfterUnpack, CopyProp) and on the transcribed algorithms of LwRewrites; replay; trace validation with recorded structure"),
  "C03": dict(
    level="model_checking", design="DESIGN.md section 5 C03",
    text="Simulate is a read action of LwCircuit whose result (the table of <<permanent, factorial denominator>> pairs with herald photons on heralded lines and vacuum on loss lines) TLC computes exactly in the ring for every input with up to 2 (thorough 3) photons on every circuit in scope; SimUnit (unit vector for lossless circuits) is an invariant; every generated program + read is replayed into the real Simulator and compared entry by entry (1e-9), invalid inputs must be rejected.",
-   note="Discrete parameter alphabet (ring); circuits up to 3 user modes + 3 ancillas + loss lines; continuous parameters are not covered by this check (C01/C02 cover the matrix for them). " + TB,
+   note="Exact part: discrete parameter alphabet (ring), circuits up to 3 user modes + 3 ancillas + loss lines, up to 4 photons in one mode. Continuous parameters (<= 9 full modes) through the evaluator ev_reads applied to the abstract term TLC exports for each recorded history. Invalid-argument classes: wrong length (first or later position, too long / too short), negative, non-integer, mismatched photon numbers of inputs or outputs. " + TB,
    technique="TLC evaluates the Fock-space amplitude definition (LwFock) on LwCircuit states; dump / simulate behaviours replayed into Simulator"),
  "C04": dict(
    level="model_checking", design="DESIGN.md section 5 C04",
@@ -33,12 +33,12 @@ CHECKS = {
  "C05": dict(
    level="model_checking", design="DESIGN.md section 5 C05",
    text="AnalyzerTable and QuickTable are DEFINED in the specification from SamplerDist (heralds inserted, post-selection rule sets, photon number n or <= n, at most one photon per mode for threshold detection) and evaluated exactly by TLC (invariants AnalyzeBound, QuickBound); the real Analyzer (probabilities, performance, error rate) and QuickSampler (renormalised distribution) must agree on every generated circuit x input x rule set x detector mode, and must not raise where the sampler works (photon-carrying heralds, heralds with different in/out modes).",
-   note="Rule-set post-selection only (4 rule sets); lambda predicates are exercised in C07/C11. " + TB,
-   technique="TLC evaluates the defining relations between the emulator objects on LwCircuit states; behaviours replayed into Analyzer / QuickSampler"),
+   note="4 rule sets at model level (the same rule sets also as functions in the replay); the rule object itself is the separate specification LwPostSelection (add accepted / refused, validate as a truth table; every history with a read replayed). Continuous parameters through the calibrated evaluator ev_reads. " + TB,
+   technique="TLC evaluates the defining relations between the emulator objects on LwCircuit states and checks LwPostSelection; behaviours replayed into Analyzer / QuickSampler / PostSelection, also through objects created before the circuit was built"),
  "C11": dict(
    level="model_checking", design="DESIGN.md section 5 C11",
    text="LwCache models configuration, comparison snapshot, cached and continuous distribution of Sampler and QuickSampler and the Analyzer's result attributes, with a Variant constant for the mechanism. TLC explores the COMPLETE state graph (all interleavings of reconfigurations, in-place edits and reads, no depth bound): the mechanism of the pinned tree is refuted (model-derived minimal histories are stored in the evidence), the repaired mechanism satisfies Fresh and AnalysisOwn. Behaviours of the specification are replayed on one long-lived real object and after every read its answer is compared with a freshly created object with the same settings (the property verbatim).",
-   note="The replay world is fixed (two lossy heralded 3-mode circuits differing only in herald photon number, one shared Parameter, one PostSelection object, two inputs, two brightness values, two back-ends). " + TB,
+   note="The replay world is fixed: four heralded 3-mode circuits (same herald mode with 0 / 1 photons, another herald mode, a lossless one), one shared Parameter inside a Mach-Zehnder loop with three values (two of them 2e-7 apart), one shared Source, Detector and PostSelection object (two in-place rule additions), two closures from one factory, two inputs, two back-ends; ten alphabets of reconfigurations. " + TB,
    technique="TLC on LwCache (complete state graph, action property Fresh keyed on the read label); simulate behaviours replayed against fresh objects"),
  "C06": dict(
    level="model_checking", design="DESIGN.md section 5 C06",
@@ -73,17 +73,17 @@ CHECKS = {
  "C14": dict(
    level="model_checking", design="DESIGN.md section 5 C14",
    text="LwReck transcribes the triangular nulling schedule and the circuit Reck.map builds from it and TLC executes both EXACTLY on every monomial matrix (entries 0 or a 4th root of unity) of size 2, 3 (4 in the thorough tier) - the family that always takes the 'entry already zero' branch - checking that the schedule nulls and the mapped unit cells reproduce the matrix; the same matrices are mapped by the real Reck and structure, unitary, phase range and (as DRIFT only) the programmed phases are compared. The contract for arbitrary unitaries (identity, all permutations, DFT, block diagonal, near-degenerate around the 1e-20 threshold, Haar up to 12 modes, heralded circuits) and for error models (bounds of every drawn value, seed reproducibility, sub-unitarity) is judged numerically on the mapped circuit.",
-   note="For non-ring unitaries and random error models the specification supplies only the contract; numbers are compared at 1e-8. " + TB,
+   note="For non-ring unitaries and random error models the specification supplies only the contract; numbers are compared at 1e-10. Histories: distributions re-assigned on a used ErrorModel, a default Reck() after another one was edited in place. " + TB,
    technique="TLC executes the transcribed nulling schedule exactly on all monomial matrices; the same inputs replayed into Reck.map; contract checks on recorded mappings"),
  "C15": dict(
    level="model_checking", design="DESIGN.md section 5 C15",
    text="LwTomo defines the measurement settings ({X,Y,Z}^n with I -> Z reuse), the per-qubit basis changes (X: H, Y: H.Z.S), noiseless outcome probabilities, Pauli expectation values and the reconstructed density matrix; TLC checks rho = |psi><psi| (Hermitian, unit trace) for every state reachable by the ring gate programs in scope, including states with Y components and entangled ones. The real StateTomography runs on the corresponding lightworks circuit with a callback that verifies it receives exactly one circuit per required setting (= base + basis changes) and answers with frequencies from the harness's own permanent; rho and fidelity are compared with TLC's exact values and the base circuit must be unchanged.",
-   note="1 qubit (<= 3 gates) and 2 qubits (<= 2-3 gates; post-selected and heralded two-qubit gates). " + TB,
+   note="Ring scope: 1 qubit (<= 3 gates) and 2 qubits (<= 2-3 gates; post-selected and heralded two-qubit gates). Continuous scope (numpy definitions pinned by the ring scope): Haar-random local unitaries around heralded / post-selected entanglers, n = 1..3 qubits. Frequencies from the harness's permanent and from the library's Analyzer; the fidelity functions are probed with last-place perturbations of the exact matrices. " + TB,
    technique="TLC checks the tomography protocol on all logical programs in scope; the programs replayed through the real StateTomography with a verifying noiseless callback"),
  "C16": dict(
    level="model_checking", design="DESIGN.md section 5 C16",
    text="LwTomo pins the Choi matrix to the EXPERIMENTS (TLC checks tr((rho^T x P) J) = tr(P V rho V^dagger) for all 6^n inputs and 4^n Paulis on every program in scope), shows at model level that the row-major vectorisation is not that matrix for non-symmetric V, and gives exact average gate fidelities. The real LIProcessTomography must return exactly that matrix AND agree with choi_from_unitary(V); GateFidelity must equal the formula for target V and for the identity; MLEProcessTomography must return a positive, trace-preserving matrix with fidelity >= 0.99.",
-   note="MLE quality thresholds are numeric and judged by the harness (trace preservation 5e-3 is the order of the library's own CPTP projection stopping rule). 2-qubit MLE only in the thorough tier. " + TB,
+   note="MLE quality thresholds are numeric and judged by the harness (trace preservation 5e-3 is the order of the library's own CPTP projection stopping rule). Continuous scope: Haar-random one- and two-qubit processes (LI, gate fidelity against V / a random target / V times a global phase, MLE). " + TB,
    technique="TLC checks the defining equations of the Choi matrix and exact gate fidelities; programs replayed through the real process tomography classes"),
  "C10": dict(
    level="model_checking", design="DESIGN.md section 5 C10",
